@@ -1,6 +1,8 @@
 """C09 — a session with four conforming clients always runs to completion, whatever the interleaving."""
 import random
 
+import common
+
 TITLE = 'A session with four conforming clients always runs to completion'
 LEAN_TARGETS = ['BridgeVerif.Props.C09']
 REQUIRED = ['session_disciplined', 'canonical_run_terminates', 'no_lost_wakeup', 'session_always_completes',
@@ -43,6 +45,25 @@ def extra_checks(ctx):
             sc = session.gen_scenario(random.Random(f'sweep/{ctx.seed}/{kinds}'), 1, fancy=True, kinds=kinds)
             fails += SP.stall_sweep(ctx, {'completion'}, sc, stride=7)
     if ctx.shard == 0:
+        # corpus: the scenario of every recorded deadlock is re-run under stall-main policies (the recorded schedule
+        # belongs to the code before the repair and need not apply any more)
+        import json
+        import os
+        cdir = os.path.join(common.VERIF, 'corpus', 'C09')
+        for fn in sorted(os.listdir(cdir)) if os.path.isdir(cdir) else []:
+            if fn.endswith('.json'):
+                rec = json.load(open(os.path.join(cdir, fn)))
+                driver = common.ModelDriver()
+                for start in (0, 40, 200, 700):
+                    pdesc = {'kind': 'stall', 'base': {'kind': 'lowest', 'order': SP.CANON_ORDER}, 'victim': 'main',
+                             'start': start, 'length': 10 ** 7}
+                    diffs, r, _m = SP.run_and_compare(driver, rec['scenario'], pdesc, ctx.workdir, {'completion'})
+                    ctx.count('corpus_cases')
+                    ctx.count('_cases')
+                    ctx.count('_evals', r.steps)
+                    for d in diffs:
+                        fails.append({'key': d['what'], 'kind': SP.kind_of(d), 'scenario': rec['scenario'], 'policy': pdesc,
+                                      'schedule': r.schedule, 'diff': d})
         ctx.samples.append({'note': 'one failing-or-not session is (scenario, policy); see generator_distribution',
                             'threads': THREADS})
     return fails
